@@ -9,6 +9,7 @@ import (
 	"encoding/json"
 	"errors"
 	"fmt"
+	"sort"
 	"strconv"
 	"strings"
 	"unicode"
@@ -65,6 +66,9 @@ type implOut struct {
 	OutText  string   `json:"output_text"`
 	Errs     [][2]int `json:"errors_kind_offset"` // kind: 0 unterminated, 1 empty statement, 2 missing function, 3 function error
 	Note     string   `json:"note,omitempty"`
+	// a contract violation the harness observed around this compile (a builder knows a function that is
+	// neither in the base set nor registered on it, HasFunc wrong, the caller's function set modified)
+	Violation string `json:"violation,omitempty"`
 }
 
 func errKind(e error) int {
@@ -125,14 +129,96 @@ func probeFor(name string) expressions.KeyBuilderFunction {
 	return probe(name, -1)
 }
 
-// runSeq compiles the templates one after another on the same two KeyBuilders (optimising, plain),
-// evaluates each compiled expression right after its compile and once more after the whole sequence
-func runSeq(steps []seqStep) []implOut {
-	kbs := [2]*expressions.KeyBuilder{newBuilder(true), newBuilder(false)}
+var seqBaseNames = []string{"f0", "f1", "f2", "f3", "g2"}
+var seqExtraNames = []string{"h0", "h1", "twice", "z9z9"}
+
+func isBaseName(n string) bool {
+	for _, b := range seqBaseNames {
+		if b == n {
+			return true
+		}
+	}
+	return false
+}
+
+// runSeq runs the steps on builders that are all made from ONE base function set (KeyBuilder.Funcs(base));
+// every builder exists twice (optimising, plain). Each compiled expression is evaluated right after its
+// compile and once more after the whole sequence. After every compile: every builder must know exactly the
+// base set plus its own registrations (HasFunc), and the caller's base map must be unchanged.
+// Returns per step the observable and the own registrations of the step's builder at that time.
+func runSeq(steps []seqStep, pre int) ([]implOut, [][]string) {
+	base := map[string]expressions.KeyBuilderFunction{}
+	for _, n := range seqBaseNames {
+		base[n] = probeFor(n)
+	}
+	builders := map[int]*[2]*expressions.KeyBuilder{}
+	own := map[int]map[string]bool{}
+	get := func(b int) *[2]*expressions.KeyBuilder {
+		if kb, ok := builders[b]; ok {
+			return kb
+		}
+		kb := &[2]*expressions.KeyBuilder{expressions.NewKeyBuilderEx(true), expressions.NewKeyBuilderEx(false)}
+		kb[0].Funcs(base)
+		kb[1].Funcs(base)
+		builders[b] = kb
+		own[b] = map[string]bool{}
+		return kb
+	}
+	for b := 0; b < pre; b++ {
+		get(b)
+	}
+	contract := func() string {
+		if len(base) != len(seqBaseNames) {
+			keys := []string{}
+			for k := range base {
+				keys = append(keys, k)
+			}
+			sort.Strings(keys)
+			return fmt.Sprintf("the caller's function set was modified: now %v", keys)
+		}
+		for _, n := range seqBaseNames {
+			if base[n] == nil {
+				return "the caller's function set lost " + n
+			}
+		}
+		ids := []int{}
+		for b := range builders {
+			ids = append(ids, b)
+		}
+		sort.Ints(ids)
+		for _, b := range ids {
+			for m := 0; m < 2; m++ {
+				for _, n := range append(append([]string{}, seqBaseNames...), seqExtraNames...) {
+					want := isBaseName(n) || own[b][n]
+					if builders[b][m].HasFunc(n) != want {
+						return fmt.Sprintf("builder %d (optimise=%v): HasFunc(%q) = %v, but the base set and its own registrations say %v", b, m == 0, n, !want, want)
+					}
+				}
+			}
+		}
+		return ""
+	}
 	outs := make([]implOut, len(steps))
+	extras := make([][]string, len(steps))
 	ckbs := make([][2]*expressions.CompiledKeyBuilder, len(steps))
 	first := make([][2]string, len(steps))
+	flagged := false
 	for k, st := range steps {
+		kbs := get(st.Builder)
+		if st.Reg != "" {
+			kbs[0].Func(st.Reg, probeFor(st.Reg))
+			kbs[1].Func(st.Reg, probeFor(st.Reg))
+			if !isBaseName(st.Reg) {
+				own[st.Builder][st.Reg] = true
+			}
+		}
+		for n := range own[st.Builder] {
+			extras[k] = append(extras[k], n)
+		}
+		sort.Strings(extras[k])
+		if st.Kind == "register" {
+			continue
+		}
 		rs := make([]rune, len(st.Template))
 		for i, x := range st.Template {
 			rs[i] = rune(x)
@@ -146,9 +232,6 @@ func runSeq(steps []seqStep) []implOut {
 			}()
 			var errs [2][][2]int
 			for m := 0; m < 2; m++ {
-				if st.Reg != "" {
-					kbs[m].Func(st.Reg, probeFor(st.Reg))
-				}
 				ckb, cerr := kbs[m].Compile(tmpl)
 				if cerr != nil {
 					for _, e := range cerr.Errors {
@@ -168,9 +251,15 @@ func runSeq(steps []seqStep) []implOut {
 			}
 			outs[k] = o
 		}()
+		if !flagged {
+			if v := contract(); v != "" {
+				outs[k].Violation = v
+				flagged = true
+			}
+		}
 	}
-	for k := range steps {
-		if outs[k].Panic {
+	for k, st := range steps {
+		if outs[k].Panic || st.Kind == "register" {
 			continue
 		}
 		func() {
@@ -187,14 +276,18 @@ func runSeq(steps []seqStep) []implOut {
 			}
 		}()
 	}
-	return outs
+	return outs, extras
 }
 
-func seqCases(steps []seqStep, only int, extraTags ...string) []Case {
-	outs := runSeq(steps)
+func seqCases(steps []seqStep, pre int, only int, extraTags ...string) []Case {
+	outs, extras := runSeq(steps, pre)
 	var cases []Case
+	nb := map[int]bool{}
+	for _, st := range steps {
+		nb[st.Builder] = true
+	}
 	for k, st := range steps {
-		if only >= 0 && k != only {
+		if only >= 0 && k != only || st.Kind == "register" {
 			continue
 		}
 		rs := make([]rune, len(st.Template))
@@ -211,7 +304,13 @@ func seqCases(steps []seqStep, only int, extraTags ...string) []Case {
 				break
 			}
 		}
-		cases = append(cases, mkCaseOut("sequence/"+st.Kind, st.Claim, rs, outs[k], steps[:k+1], k, tags...))
+		if len(nb) > 1 {
+			tags = append(tags, fmt.Sprintf("seq-builders=%d", len(nb)))
+		}
+		if len(extras[k]) > 0 {
+			tags = append(tags, "seq-builder-with-own-registrations")
+		}
+		cases = append(cases, mkCaseOut("sequence/"+st.Kind, st.Claim, rs, outs[k], steps[:k+1], k, pre, extras[k], tags...))
 	}
 	return cases
 }
@@ -319,6 +418,7 @@ type c09In struct {
 	// this case observes compile number Index of it; the model is still a function of this template alone
 	Seq   []seqStep `json:"sequence,omitempty"`
 	Index int       `json:"sequence_index,omitempty"`
+	Pre   int       `json:"builders_created_first,omitempty"`
 }
 
 type seqStep struct {
@@ -327,6 +427,9 @@ type seqStep struct {
 	Text     string `json:"template_text"`
 	Claim    string `json:"claim_coq"`
 	Reg      string `json:"register_before,omitempty"` // KeyBuilder.Func(name, probe) called before this compile
+	// several builders made from ONE base function set with KeyBuilder.Funcs(base): the builder this step
+	// uses (created at first use unless among the first c09In.Pre); Kind "register": only Func(Reg), no compile
+	Builder int `json:"builder,omitempty"`
 }
 
 func isSyntax(r rune) bool { return r == '\\' || r == '{' || r == '}' || r == '"' }
@@ -357,15 +460,34 @@ func inTrailingBackslashDomain(rs []rune) bool {
 }
 
 func mkCase(kind, claim string, tmplRunes []rune, extraTags ...string) Case {
-	return mkCaseOut(kind, claim, tmplRunes, runImpl(string(tmplRunes)), nil, 0, extraTags...)
+	return mkCaseOut(kind, claim, tmplRunes, runImpl(string(tmplRunes)), nil, 0, 0, nil, extraTags...)
 }
 
-func mkCaseOut(kind, claim string, tmplRunes []rune, out implOut, seq []seqStep, index int, extraTags ...string) Case {
+// extra: the own registrations of the builder (besides the base set); then the model runs under the
+// extended function table and only the raw form (no crash, both builders agree) is claimed
+func mkCaseOut(kind, claim string, tmplRunes []rune, out implOut, seq []seqStep, index int, pre int, extra []string, extraTags ...string) Case {
 	tmpl := string(tmplRunes)
 	rs := []rune(tmpl) // what Compile sees (invalid code points become U+FFFD)
-	in := c09In{Kind: kind, Template: toInts(tmpl), Text: tmpl, Claim: claim, Seq: seq, Index: index}
+	if len(extra) > 0 {
+		claim = "KRaw"
+	}
+	in := c09In{Kind: kind, Template: toInts(tmpl), Text: tmpl, Claim: claim, Seq: seq, Index: index, Pre: pre}
 	var coq string
-	if out.Panic {
+	if len(extra) > 0 {
+		xs := make([]string, len(extra))
+		for i, n := range extra {
+			xs[i] = coqRunes([]rune(n))
+		}
+		es := make([]string, len(out.Errs))
+		for i, e := range out.Errs {
+			es[i] = fmt.Sprintf("(%d,%d)", e[0], e[1])
+		}
+		if out.Panic || out.Violation != "" {
+			coq = fmt.Sprintf("cxP %s %s", CoqList(xs), coqRunes(rs))
+		} else {
+			coq = fmt.Sprintf("cx %s %s %s %s %s", CoqList(xs), coqRunes(rs), coqInts(out.Out), coqInts(out.OutNoOpt), CoqList(es))
+		}
+	} else if out.Panic || out.Violation != "" {
 		coq = fmt.Sprintf("cP (%s) %s", claim, coqRunes(rs))
 	} else {
 		es := make([]string, len(out.Errs))
@@ -417,7 +539,7 @@ func mkCaseOut(kind, claim string, tmplRunes []rune, out implOut, seq []seqStep,
 		tags = append(tags, "kf:C09-trailing-backslash")
 	}
 	tags = append(tags, extraTags...)
-	kb, _ := json.Marshal([]any{claim, in.Template, seq, index})
+	kb, _ := json.Marshal([]any{claim, in.Template, seq, index, pre})
 	return Case{Coq: coq, Desc: map[string]any{"input": in, "impl": out}, Key: string(kb),
 		Nontrivial: classes >= 2, Tags: tags}
 }
@@ -648,7 +770,19 @@ func mkStep(kind, claim string, rs []rune) seqStep {
 
 // 2..6 templates for one KeyBuilder: the same template twice, different templates sharing an argument
 // text (malformed or well-formed), malformed between well-formed ones, Func() registrations in between
-func genSeq(r *Rng) []seqStep {
+// With probability 1/2 the sequence runs over 2..3 builders made from the same base set (some created
+// first, the others at first use): registrations of further functions on one builder, compiles of calls of
+// those functions on every builder (unknown-function error claimed wherever the builder did not register it)
+func genSeq(r *Rng) ([]seqStep, int) {
+	nb, pre := 1, 1
+	if r.Chance(1, 2) {
+		nb = r.Range(2, 3)
+		pre = r.Intn(nb + 1)
+	}
+	own := map[int]map[string]bool{}
+	for b := 0; b < nb; b++ {
+		own[b] = map[string]bool{}
+	}
 	focus := []string{Pick(r, seqBadArgs)}
 	if r.Chance(1, 2) {
 		focus = append(focus, Pick(r, seqGoodArgs))
@@ -657,12 +791,46 @@ func genSeq(r *Rng) []seqStep {
 		focus = append(focus, Pick(r, seqBadArgs))
 	}
 	n := r.Range(2, 6)
+	if nb > 1 {
+		n = r.Range(3, 7)
+	}
 	var steps []seqStep
 	for len(steps) < n {
 		var st seqStep
+		b := r.Intn(nb)
+		if nb > 1 && r.Chance(1, 4) { // a registration only
+			name := Pick(r, seqExtraNames[:3])
+			own[b][name] = true
+			steps = append(steps, seqStep{Kind: "register", Builder: b, Reg: name})
+			continue
+		}
+		if nb > 1 && r.Chance(2, 5) { // a call of a function that some builder may have registered
+			name := Pick(r, seqExtraNames[:3])
+			call := genStmt(r, 2, true)
+			for call.kind != 2 {
+				call = genStmt(r, 2, true)
+			}
+			call.s = []rune(name)
+			t, t2 := genTmpl(r, 1), genTmpl(r, 1)
+			txt := append(append(printBody(t), printPiece(call)...), printBody(t2)...)
+			st = mkStep("function-of-one-builder", fmt.Sprintf("KMissing %s (%s) %s", coqBody(t), coqPiece(call), coqBody(t2)), txt)
+			st.Builder = b
+			if !own[b][name] && r.Chance(1, 5) { // register it on this builder right before the compile
+				st.Reg = name
+				own[b][name] = true
+			}
+			steps = append(steps, st)
+			continue
+		}
 		switch x := r.Intn(20); {
-		case x < 5 && len(steps) > 0: // an earlier template again
-			st = steps[r.Intn(len(steps))]
+		case x < 5 && len(steps) > 0 && steps[len(steps)-1].Kind != "register": // an earlier template again
+			st = steps[len(steps)-1]
+			for t := 0; t < 4; t++ {
+				if c := steps[r.Intn(len(steps))]; c.Kind != "register" {
+					st = c
+					break
+				}
+			}
 			st.Reg = ""
 		case x < 13: // {f x} after a printed tree, x one of the shared argument texts: exact errors claimed
 			var t []cpiece
@@ -693,12 +861,13 @@ func genSeq(r *Rng) []seqStep {
 		default: // a mutated tree
 			st = mkStep("mutation", "KRaw", mutate(r, printBody(genTmpl(r, 3))))
 		}
+		st.Builder = b
 		if len(steps) > 0 && r.Chance(1, 6) {
 			st.Reg = Pick(r, []string{"f0", "f1", "f2", "f3", "g2", "z9z9"})
 		}
 		steps = append(steps, st)
 	}
-	return steps
+	return steps, pre
 }
 
 func exhaustive(L int) []Case {
@@ -747,7 +916,19 @@ func c09Gen(r *Rng, n int, tier string) []Case {
 		for _, t := range sq {
 			steps = append(steps, mkStep("fixed", "KRaw", []rune(t)))
 		}
-		cases = append(cases, seqCases(steps, -1, fmt.Sprintf("seq-len=%d", len(steps)))...)
+		pre := 1
+		cases = append(cases, seqCases(steps, pre, -1, fmt.Sprintf("seq-len=%d", len(steps)))...)
+	}
+	// two builders from one base set: `twice` registered on builder 0 only; builder 1 created after / before
+	for pre := 0; pre <= 2; pre += 2 {
+		missing := "KMissing [CLit [120;32]] (CCall [] false [116;119;105;99;101] [CArg [32] false [CVar [] false [48] []]] []) [CLit [32;121]]"
+		a := mkStep("fixed", "KRaw", []rune("{twice {0}}"))
+		a.Reg = "twice"
+		b := mkStep("fixed", missing, []rune("x {twice {0}} y"))
+		b.Builder = 1
+		a2 := mkStep("fixed", "KRaw", []rune("x {twice {0}} y"))
+		steps := []seqStep{a, b, a2}
+		cases = append(cases, seqCases(steps, pre, -1, fmt.Sprintf("seq-len=%d", len(steps)))...)
 	}
 	base := len(cases)
 	for len(cases) < base+n {
@@ -807,8 +988,8 @@ func c09Gen(r *Rng, n int, tier string) []Case {
 			s = append(append(s, w...), '}', '}')
 			cases = append(cases, mkCase("nested-error", fmt.Sprintf("KNested %s %s %s %s", coqBody(t), coqRunes(f), coqRunes(lit), coqRunes(w)), s))
 		case x < 80:
-			steps := genSeq(r)
-			cases = append(cases, seqCases(steps, -1, fmt.Sprintf("seq-len=%d", len(steps)))...)
+			steps, pre := genSeq(r)
+			cases = append(cases, seqCases(steps, pre, -1, fmt.Sprintf("seq-len=%d", len(steps)))...)
 		case x < 93:
 			t := genTmpl(r, depth)
 			cases = append(cases, mkCase("mutation", "KRaw", mutate(r, printBody(t))))
@@ -831,7 +1012,7 @@ func main() {
 		Rule: "1 table case (unicode.IsSpace on every rune < 0x3100 + sample of the other planes vs Model/IsSpace.v); exhaustive small scope (every string of length <= 3 (quick) / 4 (thorough) over { } \" \\ space a 1); " +
 			"16 fixed templates; then seeded random: 45% concrete syntax trees of depth <= 4 (calls of probes f0..f3/g2, group and key look-ups incl. Atoi edge spellings, literals over a pool with NUL, non-ASCII and astral runes) printed with a random admissible layout (Unicode white-space runs, quoted/bare items, empty quoted argument) claimed to evaluate as the tree dictates; " +
 			"10% escaped renderings of random strings over the full rune range (round trip); 20% error shapes (empty statement, unterminated statement, unknown function, empty statement inside an argument: re-based offset) around printed trees with the exact error list claimed; 13% mutations (delete/insert/swap/replace a brace, quote, backslash or space) of printed trees; 7% random strings over a syntax-heavy alphabet. " +
-			"13% of the random draws are SEQUENCES: 2..6 templates compiled one after another on the same KeyBuilder (the same template twice; different templates sharing a malformed or well-formed argument text, claimed with the exact re-based error list of C09_err_rebase; malformed between well-formed; quoted arguments with an escaped brace; Func() re-registrations in between), each compile compared with the model of that template alone and evaluated both at once and after the whole sequence; 6 fixed sequences. " +
+			"13% of the random draws are SEQUENCES: 2..6 templates compiled one after another on the same KeyBuilder (the same template twice; different templates sharing a malformed or well-formed argument text, claimed with the exact re-based error list of C09_err_rebase; malformed between well-formed; quoted arguments with an escaped brace; Func() re-registrations in between), each compile compared with the model of that template alone and evaluated both at once and after the whole sequence; half of the sequences run over 2..3 builders made with Funcs(base) from ONE base map (created before or after the registrations): registrations of h0/h1/twice on one builder, calls of them on every builder (exact unknown-function error claimed where the builder did not register it; model under the extended table where it did), HasFunc of every builder = base set + own registrations and the base map unchanged after every compile; 8 fixed sequences. " +
 			"Observables: BuildKey output against the recording context with the optimising and the plain builder, compile errors (kind, rune offset); a panic is an observable. " +
 			"distinct = distinct (claim, template); non-trivial = at least two of: brace, quote, backslash, white space other than U+0020, nesting >= 2, nesting >= 3, non-ASCII, empty quoted item, compile error.",
 		Gen: c09Gen,
@@ -846,7 +1027,7 @@ func main() {
 				return spaceCase(), nil
 			}
 			if len(doc.Input.Seq) > 0 {
-				cs := seqCases(doc.Input.Seq, doc.Input.Index)
+				cs := seqCases(doc.Input.Seq, doc.Input.Pre, doc.Input.Index)
 				if len(cs) != 1 {
 					return Case{}, fmt.Errorf("sequence_index %d out of range", doc.Input.Index)
 				}
